@@ -406,9 +406,30 @@ TAILS = {
 }
 
 
+# ---- stages whose end does not depend on the source: reaching the end must
+# ---- not cost a source item either (name -> build, outputs, pulls at the end)
+ENDS = {
+  "end/stream.limit": (lambda s: Stream(s[0]).limit(4), 4, (4,)),
+  "end/stream.limit-0": (lambda s: Stream(s[0]).limit(0), 0, (0,)),
+  "end/stream.limit-float": (lambda s: Stream(s[0]).limit(2.7), 3, (3,)),
+  "end/thub.limit": (lambda s: thub(s[0], 1).limit(3), 3, (3,)),
+  "end/limit-after-skip": (lambda s: Stream(s[0]).skip(2).limit(3), 3, (5,)),
+  "end/limit-of-sum": (lambda s: (Stream(s[0]) + 1).limit(2), 2, (2,)),
+  "end/itertools.islice": (lambda s: lit.islice(s[0], 1, 4), 3, (4,)),
+  "end/itertools.islice-n": (lambda s: lit.islice(s[0], 5), 5, (5,)),
+  "end/blocks-of-limited": (lambda s: Stream(s[0]).limit(6).blocks(size=3),
+                            2, (6,)),
+}
+
+
 def cases(ctx):
   rng = ctx.rng
   i = 0
+  for name in sorted(ENDS):
+    for variant in ("endless", "capped"):
+      if ctx.mine(i):
+        yield ("end", name, variant)
+      i += 1
   for name in sorted(CAT):
     ent = CAT[name]
     for K in (1, 2, 3, 5, ent.kmax):
@@ -482,7 +503,41 @@ def drive(ctx, case, what, stage_builder, srcs, need, K, exact, variant):
       return
 
 
+def run_end(ctx, case):
+  _, name, variant = case
+  build, nout, end_need = ENDS[name]
+  srcs = [Probe(endless=v_int, cap=(n if variant == "capped" else n + 256),
+                name="src%d" % i) for i, n in enumerate(end_need)]
+  ctx.count("entry:end")
+  try:
+    stage = build(srcs)
+    if any(p.pulls for p in srcs):
+      ctx.violation(name + "/read-at-construction", case)
+      return True
+    it = iter(stage)
+    got = 0
+    while got <= nout + 2:
+      try:
+        next(it)
+      except StopIteration:
+        break
+      got += 1
+  except OverRead as exc:
+    ctx.violation(name + "/reads-beyond-need-at-its-end", case, exc=str(exc))
+    return True
+  pulls = tuple(p.pulls for p in srcs)
+  ctx.count("ends-checked")
+  if got != nout:
+    ctx.violation(name + "/wrong-number-of-outputs", case, got=got, want=nout)
+  elif pulls != tuple(end_need):
+    ctx.violation(name + "/reads-beyond-need-at-its-end", case, pulls=pulls,
+                  need=end_need)
+  return True
+
+
 def run_case(ctx, case):
+  if case[0] == "end":
+    return run_end(ctx, case)
   if case[0] == "stage":
     _, name, K, variant = case
     ent = CAT[name]
@@ -519,6 +574,7 @@ def finish(ctx):
   for v in ["endless", "capped", "finite"]:
     ctx.need("variant:" + v, 100)
   ctx.need("constructions-checked", 1000)
+  ctx.need("ends-checked", 10)
   ctx.need("outputs-checked", 5000)
   for d in (2, 3, 4):
     ctx.need("chain-depth:%d" % d, 100)
